@@ -379,7 +379,10 @@ class Harness:
             tf = self._cmp_tree('C01.tree', exp, post, info)
             fails.extend(tf)
             real_meta = {p: (len(post[p][1]), post[p][2]) for p in mb.outputs if p in post and post[p][0] == 'f'}
-            substitute_real_meta(mb.forest, {p: mctx.mtime_for(p) for p in mb.outputs}, real_meta)
+            import hashlib
+            mh = {p: hashlib.sha256(mb.v.t[p][1]).hexdigest() for p in mb.outputs if p in mb.v.t and mb.v.t[p][0] == 'f'}
+            rh = {p: hashlib.sha256(post[p][1]).hexdigest() for p in mb.outputs if p in post and post[p][0] == 'f'}
+            substitute_real_meta(mb.forest, {p: mctx.mtime_for(p) for p in mb.outputs}, real_meta, mh, rh)
             if has_cache and (self.stale_allowed or (view_ok and not tf and not any(f['clause'] == 'C01.outcome' for f in fails))):
                 fails.extend(self._check_c05(mb, versions, pre, post, rctx, info))
             elif has_cache:
